@@ -124,6 +124,98 @@ func checkC07(c *Ctx) {
 			checkLocationKey(c, "C07.R1.visited-keys", pk)
 		}
 	}
+	// template names are global and the default templates are loaded by ranging a map: a name
+	// defined twice resolves to whichever file was loaded last
+	c.Rule("C07.R1.template-names", "no template name is defined by two default template files; no goroutine of the analysed packages writes to captured state", 1)
+	if _, _, gen := c.evalTemplates(""); gen != nil {
+		ev, _, _ := c.evalTemplates("")
+		c.Check(len(ev.F.Duplicates) == 0, "C07.R1.template-names", "default templates › every template name defined once", "", fmt.Sprintf("%d template trees", len(ev.F.Trees)),
+			fmt.Sprintf("defined twice: %v — which definition a caller gets depends on the iteration order of the assets map, so generated files differ from run to run", ev.F.Duplicates))
+	}
+	for _, pk := range pkgs {
+		for _, fd := range load.AllFuncs(pk) {
+			fd, pk := fd, pk
+			ast.Inspect(fd.Body, func(n ast.Node) bool {
+				gs, ok := n.(*ast.GoStmt)
+				if !ok {
+					return true
+				}
+				lit, ok := gs.Call.Fun.(*ast.FuncLit)
+				if !ok {
+					return true
+				}
+				// stores / appends to variables captured from the enclosing function
+				var captured []string
+				ast.Inspect(lit.Body, func(m ast.Node) bool {
+					as, ok := m.(*ast.AssignStmt)
+					if !ok {
+						return true
+					}
+					for _, l := range as.Lhs {
+						root := ast.Unparen(l)
+						for {
+							switch x := root.(type) {
+							case *ast.IndexExpr:
+								root = x.X
+								continue
+							case *ast.SelectorExpr:
+								root = x.X
+								continue
+							case *ast.StarExpr:
+								root = x.X
+								continue
+							}
+							break
+						}
+						if id, ok := root.(*ast.Ident); ok {
+							if v, ok := pk.TypesInfo.Uses[id].(*types.Var); ok && !v.IsField() && (v.Pos() < lit.Pos() || v.Pos() > lit.End()) {
+								captured = append(captured, id.Name)
+							}
+						}
+					}
+					return true
+				})
+				c.Check(len(captured) == 0, "C07.R1.template-names", fmt.Sprintf("%s.%s › goroutine writes no captured state", pk.Name, load.FuncName(fd)), c.posOf(pk, gs.Pos()), "no store to captured variables",
+					fmt.Sprintf("a goroutine stores to %v captured from %s: the result depends on which goroutine finishes first", captured, load.FuncName(fd)))
+				return true
+			})
+		}
+	}
+	checkComparators(c, pkgs)
+	// the spec path rendered into generated code (go:generate comment) is the user's, never the
+	// path of a temporary copy
+	for _, pk := range pkgs {
+		if pk.Name != "generator" {
+			continue
+		}
+		nSpecStores := 0
+		for _, fd := range load.AllFuncs(pk) {
+			fd := fd
+			ast.Inspect(fd.Body, func(n ast.Node) bool {
+				as, ok := n.(*ast.AssignStmt)
+				if !ok {
+					return true
+				}
+				for i, l := range as.Lhs {
+					se, ok := ast.Unparen(l).(*ast.SelectorExpr)
+					if !ok || se.Sel.Name != "Spec" || i >= len(as.Rhs) {
+						continue
+					}
+					if sel, ok := pk.TypesInfo.Selections[se]; !ok || (goan.NamedName(sel.Recv()) != "GenOpts" && goan.NamedName(sel.Recv()) != "GenOptsCommon") {
+						continue
+					}
+					nSpecStores++
+					_, isCall := ast.Unparen(as.Rhs[i]).(*ast.CallExpr)
+					c.Check(!isCall, "C07.R2.ambient", fmt.Sprintf("generator.%s › GenOpts.Spec ⟸ %s", load.FuncName(fd), goan.ExprString(as.Rhs[i])), c.posOf(pk, as.Pos()), "not replaced by a computed path",
+						"GenOpts.Spec, which is rendered into the go:generate comment of generated code, is replaced by the result of a call (e.g. the temporary x-order copy): the generated file names a path that changes at every run")
+				}
+				return true
+			})
+		}
+		if nSpecStores == 0 {
+			c.Ok("C07.R2.ambient", "generator › GenOpts.Spec is never reassigned", "", "the user's spec path is kept")
+		}
+	}
 	// output files are opened truncated: the report is a function of the inputs, not of what the
 	// destination file held before
 	c.Rule("C07.R3.output-files", "every file opened for writing with O_CREATE (outside append/exclusive mode) is truncated", 1)
@@ -481,5 +573,65 @@ func checkTemplateRepoIsolation(c *Ctx, pkgs []*packages.Package) {
 	if fd := load.FuncDecl(gen, "Repository.addFile"); fd != nil {
 		// informational: addFile is unlocked by design (clones are private); recorded in the evidence
 		c.Note("Repository.addFile writes the maps without locking; safe because generation only calls it on private clones (checked above) and the global repository is written at init and via the AddFile API")
+	}
+}
+
+// Reviewed comparators: the fields a sort.Interface Less must compare so that no two distinct
+// elements of the (map-derived) slices it orders compare equal.
+var c07Comparators = map[string]struct {
+	fields []string
+	why    string
+}{
+	"responses":               {[]string{"Code"}, "status codes are the keys of the responses map"},
+	"opRefs":                  {[]string{"Key", "Path", "Method"}, "distinct operations can share a mangled key; method and path identify an operation"},
+	"GenDefinitions":          {[]string{"Name"}, "definition names are the keys of the definitions map"},
+	"GenSchemaList":           {[]string{"Name"}, "property names are the keys of the properties map (x-order first)"},
+	"GenResponseExamples":     {[]string{"MediaType"}, "media types are the keys of the examples map"},
+	"GenHeaders":              {[]string{"Name"}, "header names are the keys of the headers map"},
+	"GenParameters":           {[]string{"Name", "Location"}, "a parameter is identified by name and location"},
+	"GenOperationGroups":      {[]string{"Name", "PackageAlias"}, "groups are keyed by package alias; several aliases can share a package name"},
+	"GenStatusCodeResponses":  {[]string{"Code"}, "status codes are unique per operation"},
+	"GenOperations":           {[]string{"Name"}, "operation names are the keys gatherOperations made unique"},
+	"GenSerGroups":            {[]string{"Name"}, "group names are keys of the serializer-group map"},
+	"GenSerializers":          {[]string{"MediaType"}, "media types are keys of the serializer map"},
+	"GenSecuritySchemes":      {[]string{"ID"}, "scheme ids are the keys of securityDefinitions"},
+	"GenSecurityRequirements": {[]string{"Name"}, "scheme names are the keys of one requirement"},
+}
+
+// checkComparators: the order-taint analysis trusts sort.Sort to make the order of a slice a
+// function of its contents; that holds only if Less never ties two distinct elements.
+func checkComparators(c *Ctx, pkgs []*packages.Package) {
+	rule := "C07.R1.comparators"
+	c.Rule(rule, "every sort.Interface comparator compares the fields that identify an element (reviewed table): ties would leave map order in the output", 12)
+	for _, pk := range pkgs {
+		for _, fd := range load.AllFuncs(pk) {
+			if fd.Name.Name != "Less" || fd.Recv == nil || fd.Type.Params.NumFields() != 2 {
+				continue
+			}
+			recv := load.RecvName(fd)
+			used := map[string]bool{}
+			ast.Inspect(fd.Body, func(n ast.Node) bool {
+				if se, ok := n.(*ast.SelectorExpr); ok {
+					if _, isIx := ast.Unparen(se.X).(*ast.IndexExpr); isIx {
+						used[se.Sel.Name] = true
+					}
+				}
+				return true
+			})
+			want, ok := c07Comparators[recv]
+			key := fmt.Sprintf("%s.%s.Less", pk.Name, recv)
+			if !ok {
+				c.Unk(rule, key, c.posOf(pk, fd.Pos()), fmt.Sprintf("comparator over %v is not in the reviewed table: decide which fields identify an element of this slice", sortedKeys(used)))
+				continue
+			}
+			var missing []string
+			for _, f := range want.fields {
+				if !used[f] {
+					missing = append(missing, f)
+				}
+			}
+			c.Check(len(missing) == 0, rule, key, c.posOf(pk, fd.Pos()), "compares "+strings.Join(want.fields, ", ")+" — "+want.why,
+				fmt.Sprintf("%s.Less does not compare %v: two distinct elements tie and keep the order of the map they were collected from, so generated output changes from run to run (%s)", recv, missing, want.why))
+		}
 	}
 }
